@@ -97,3 +97,46 @@ Qed.
 (* C03 on the translated step: never FIRST, MID with discount 1 or LAST with discount 0 (no truncation) -- any state, any action *)
 Lemma src_step_protocol rows cols T s a : step_ok 1 false (snd (step rows cols T s a)) = true.
 Proof. destruct (step_src rows cols T s a) as [_ E]. rewrite E. exact (step_protocol rows cols T (conv s) a). Qed.
+
+(* ---- whole runs of the translated step (any action sequence, played through) ---- *)
+Fixpoint run_src (rows cols T : Z) (s : State) (acts : list Z) : State :=
+  match acts with [] => s | a :: r => run_src rows cols T (fst (step rows cols T s a)) r end.
+Lemma run_src_eq rows cols T acts : forall s, conv (run_src rows cols T s acts) = run rows cols T (conv s) acts.
+Proof.
+  induction acts as [|a r IH]; intros s; cbn [run_src run]; [reflexivity|].
+  rewrite IH. destruct (step_src rows cols T s a) as [E1 _]. rewrite E1. reflexivity.
+Qed.
+(* C07: physical consistency along any in-spec action sequence of the translated step *)
+Lemma src_run_Physical rows cols T acts s :
+  M.Physical rows cols (conv s) -> Forall (fun a => 0 <= a < 4) acts -> M.Physical rows cols (conv (run_src rows cols T s acts)).
+Proof. intros P F. rewrite run_src_eq. exact (run_Physical rows cols T acts (conv s) P F). Qed.
+(* C11: an episode of the translated step from a fresh state ends exactly at the time limit unless the target is reached earlier *)
+Lemma src_episode_limit rows cols T s0 acts a :
+  M.Physical rows cols (conv s0) -> linked rows cols (conv s0) -> s_step_count s0 = 0 ->
+  Forall (fun a => 0 <= a < 4) acts -> 0 <= a < 4 ->
+  let s := run_src rows cols T s0 acts in
+  let n := zlen acts in
+  let t := snd (step rows cols T s a) in
+  (n + 1 = T -> st t = LAST) /\
+  (n + 1 < T -> st t = LAST -> at_target (conv (fst (step rows cols T s a)))) /\
+  (T <= n + 1 -> st t = LAST).
+Proof.
+  intros P L H0 F Ha. cbv zeta.
+  destruct (step_src rows cols T (run_src rows cols T s0 acts) a) as [E1 E2]. rewrite E1, E2, run_src_eq.
+  exact (episode_limit rows cols T (conv s0) acts a P L H0 F Ha).
+Qed.
+(* C05: an in-spec action whose stored mask entry is False leaves everything but the step counter untouched *)
+Lemma src_illegal_ignored rows cols T s a :
+  M.Physical rows cols (conv s) -> 0 <= a < 4 -> jget false (s_action_mask s) a = false ->
+  let s' := conv (fst (step rows cols T s a)) in
+  let t := snd (step rows cols T s a) in
+  M.ar s' = M.ar (conv s) /\ M.ac s' = M.ac (conv s) /\ M.tr s' = M.tr (conv s) /\ M.tc s' = M.tc (conv s) /\ M.walls s' = M.walls (conv s)
+  /\ M.amask s' = M.amask (conv s) /\ M.sc s' = M.sc (conv s) + 1
+  /\ reward t = [b2z ((M.ar (conv s) =? M.tr (conv s)) && (M.ac (conv s) =? M.tc (conv s)))]
+  /\ (st t = LAST <-> ((M.ar (conv s) = M.tr (conv s) /\ M.ac (conv s) = M.tc (conv s)) \/ T <= M.sc (conv s) + 1
+                       \/ forall k, 0 <= k < 4 -> ~ M.legal rows cols (M.walls (conv s)) (M.ar (conv s)) (M.ac (conv s)) k))
+  /\ (st t = MID \/ st t = LAST).
+Proof.
+  intros P Ha Hm. cbv zeta. destruct (step_src rows cols T s a) as [E1 E2]. rewrite E1, E2.
+  exact (illegal_ignored rows cols T (conv s) a P Ha Hm).
+Qed.
